@@ -135,16 +135,16 @@ func genPred(r *rand.Rand, cfg Cfg, depth int) string {
 
 // View is what the generator knows about the current state (taken from observations).
 type View struct {
-	Branches []int
-	Tips     map[int]int
-	Live     map[int][]int // branch -> live abstract object ids (nil if unreadable)
-	Vecs     map[int][]int // branch -> ids with vectors
-	Gone     map[int]bool  // branch -> some live object's file has been vacuumed
-	NCommits int
-	NObjs    int
-	ObjsAt   map[int][]int // commit -> object ids (missing if unreadable)
-	Parent   []int
-	NVals    int
+	Branches   []int
+	Tips       map[int]int
+	Live       map[int][]int // branch -> live abstract object ids (nil if unreadable)
+	Vecs       map[int][]int // branch -> ids with vectors
+	Gone       map[int]bool  // branch -> some live object's file has been vacuumed
+	NCommits   int
+	NObjs      int
+	ObjsAt     map[int][]int // commit -> object ids (missing if unreadable)
+	Parent     []int
+	NVals      int
 	LastRevert int // commit id of the last successful revert (0 = none)
 }
 
